@@ -277,6 +277,20 @@ func c19RoundTrip(c *fw.Ctx, fixes []fix, layout geom.Layout) {
 	zone := c19Zones[c.R.Intn(len(c19Zones))]
 	time.Local = zone
 	c.Count("process_zone_" + zone.String())
+	if len(fixes) > 0 && c.R.Chance(1, 8) {
+		// another file read first, by this or any other caller in the process: dated the
+		// 31st (30th, 28th) of the month before the track's first fix, its time of day
+		// going backwards twice (two midnights without a date record)
+		func() {
+			defer func() { _ = recover() }()
+			ft := time.Unix(fixes[0].t, 0).UTC()
+			pm := time.Date(ft.Year(), ft.Month(), 0, 0, 0, 0, 0, time.UTC) // last day of the month before
+			day := []int{31, pm.Day(), 30}[c.R.Intn(3)]
+			txt := fmt.Sprintf("AXVF777 other\nHFDTE%02d%02d%02d\nB2300004730000N00830000EA0050000500\nB1000004730000N00830000EA0050000500\nB0900004730000N00830000EA0050000500\nB0800004730000N00830000EA0050000500\n", day, int(pm.Month()), pm.Year()%100)
+			_, _ = igc.Read(strings.NewReader(txt))
+		}()
+		c.Count("another_file_with_undated_midnights_read_first")
+	}
 	stride := layout.Stride()
 	flat := make([]float64, 0, len(fixes)*stride)
 	for _, f := range fixes {
@@ -535,6 +549,18 @@ func c19Tracks(c *fw.Ctx, idx int) {
 			}
 		}
 		c.Count("tracks_with_steps_of_whole_days_and_weeks")
+	}
+	if r.Chance(1, 5) {
+		// a long flight: 30..120 fixes 20..59 minutes apart, starting in the evening
+		// of one of the last days of a month - several midnights, a month end (and a
+		// year end one time in twelve) without ever a gap of an hour
+		y, mo := r.Range(1970, 2069), time.Month(r.Range(1, 12))
+		lastDay := time.Date(y, mo+1, 0, 0, 0, 0, 0, time.UTC).Day()
+		start = time.Date(y, mo, lastDay-r.Intn(2), 20+r.Intn(4), r.Intn(60), r.Intn(60), 0, time.UTC).Unix()
+		n = r.Range(30, 120)
+		st := int64(r.Range(20*60, 59*60+59))
+		steps = []int64{st, st, st, st + int64(r.Range(-30, 30))}
+		c.Count("tracks_crossing_several_midnights_without_an_hour's_gap")
 	}
 	tt := start
 	var fixes []fix
